@@ -228,11 +228,13 @@ def main():
     for r in ct:
         ctcases += 2 * len(r.get("cases") or [])
         for f in (r.get("failures") or [])[:3]:
-            key = "combine-accepts-altered-lock-copy" if "accepted a directory set" in f else "blackbox:combine-tamper-setup"
+            key = "combine-accepts-altered-lock-copy" if "accepted a directory set" in f else (
+                "combine-distinct-shares" if f.startswith("combine of folders") else "blackbox:combine-tamper-setup")
             R.violation(key, "combine after create cluster %s: %s" % (json.dumps(r["shape"]), f),
                         {"shape": r["shape"], "combine_tamper": True, "failure": f,
                          "how": "./check C12 --replay <this file>: create cluster of this shape, write the altered lock (stored lock_hash kept) into one node directory, run cmd/combine.Combine with verification"})
-    R.coverage["combine_tamper"] = [{"shape": r["shape"], "cases": r.get("cases")} for r in ct]
+    R.coverage["combine_tamper"] = [{"shape": r["shape"], "cases": r.get("cases"), "folder_sets": r.get("folder_sets")} for r in ct]
+    ctcases += sum(len(r.get("folder_sets") or []) for r in ct)
 
     # (3) mutations, decode/encode stability
     mu = json.load(open(os.path.join(od, "c12_mutate.json")))
@@ -279,7 +281,7 @@ def main():
     R.coverage["distinct_nontrivial"] = ntv - tvbad + triples + len(bb)
     R.coverage["rule"] = ("translation validation: (hash program, environment) pairs whose Coq-evaluated SHA-256 root equals the Go hash, golden files of all 12 versions + fresh signed locks + random edge-case shapes (field lengths 0/31/32/33/64/65/256, 0-9 deposit amounts, 0-7 operators, over-long fields that must fail) — each counts once; "
                           "mutation campaign: every JSON node of golden/fresh/create-cluster files x representative alterations (flip first/middle/last byte, append/prepend/drop a byte, empty, NUL, case, +-1, zero, negate, delete, array drop/dup/swap/empty); non-trivial = distinct (version, leaf pattern) pairs with at least one value-changing alteration judged; "
-                          "black box: create-cluster shapes from flags and from definition files of every version (nodes x threshold x validators x network x deposit-amount lists in every order with repeats x compounding x per-validator addresses x unsigned / creator-signed definition; operator-signed definitions must be REFUSED without writing a lock), each with input-definition == lock-definition, lock verification, key-share/public-share match, deposit and registration checks and combine of threshold subsets; combine tamper: one node directory holds a raw-edited lock copy (hashed field / signature_aggregate / node_signatures / validators reordered, stored lock_hash kept) or belongs to another cluster, at first/middle/last position: combine with verification must refuse")
+                          "black box: create-cluster shapes from flags and from definition files of every version (nodes x threshold x validators x network x deposit-amount lists in every order with repeats x compounding x per-validator addresses x unsigned / creator-signed definition; operator-signed definitions must be REFUSED without writing a lock), each with input-definition == lock-definition, lock verification, key-share/public-share match, deposit and registration checks and combine of threshold subsets; combine tamper: one node directory holds a raw-edited lock copy (hashed field / signature_aggregate / node_signatures / validators reordered, stored lock_hash kept) or belongs to another cluster, at first/middle/last position: combine with verification must refuse; combine folder sets: duplicated / renamed / surplus node folders in any directory order: combine recovers the lock's validator keys iff at least threshold DISTINCT shares are present")
     R.coverage["input_distribution"] = {
         "translation_validation": {"cases": ntv, "mismatches": tvbad, "per_program": progs},
         "mutation": {"files": mu["files"], "mutants": mu["mutants"], "rejected_by": mu["classes"], "per_alteration": mu["by_alt"],
